@@ -140,6 +140,10 @@ func c05Run(j *orch.Job, r *orch.Result) error {
 	mkBase("transfer-salt-plus12h+1s", T1, false, false, +h12+1, "inert")
 	mkBase("transfer-rcde-before-activation", e.RCDE-1, true, false, 0, "inert")
 	mkBase("conversion-rcde-before-activation", e.RCDE-2, true, true, 0, "inert")
+	// the boundary itself: the pinned tree accepts RCD-e strictly above the activation height, and a
+	// consensus boundary cannot move by one block without forking the ledger from replayed history
+	mkBase("transfer-rcde-at-activation", e.RCDE, true, false, 0, "inert")
+	mkBase("conversion-rcde-at-activation", e.RCDE, true, true, 0, "inert")
 
 	// fund every sender well before its entry
 	m.Schedule(T1-4, func(v *gen.View, s *forge.BlockSpec) {
@@ -371,7 +375,7 @@ func checkC05(c *Ctx) *orch.Outcome {
 	o.Rule = "one evaluation = one forged entry (single-bit flip of content / salt / RCD / signature of a valid base entry, or a structural forgery) placed on the transaction chain next to the original, before and after it; the ledger of the chain with all forgeries must equal the ledger of the chain without them, and each base entry must debit its single-purpose sender exactly once (positive control). " +
 		"Distinct non-trivial = (forgery class, base entry) pairs applied."
 	o.Assumptions = []string{
-		"the exact RCD-e activation height itself is not judged (entries at activation-1/-2 must be inert, at activation+1 must execute)",
+		"the RCD-e boundary is judged as the pinned tree defines it: inert at activation-2, -1 and at the activation height itself, executed at activation+1",
 		"RCD-e recovery-byte forgeries run only in the tagged scenario (recorded finding)",
 	}
 	n, stride := 2, 2
